@@ -12,7 +12,7 @@ from sim.harness import draw_knobs
 
 ID = "C09"
 LEVEL = "exploration"
-RUNS = {"quick": 3000, "thorough": 60000}
+RUNS = {"quick": 4000, "thorough": 90000}
 WALL_CAP = {"quick": 120, "thorough": 3000}
 RULE = ("one case = one generated history (6-45 operations: color/on/off/remove_from_stack_by_key/clear_stack, "
         "light_player events of a per-run generated light_player config in the machine and two modes, mode "
